@@ -335,6 +335,9 @@ fn c12(seed: u64, tier: &str, thorough: bool) -> CheckPlan {
     for (name, text) in crate::checks::c12::FIXED {
         jobs.push(job("C12", "text", derive(seed, name, 0), tier, json!({"label": format!("fixed:{name}"), "text": text, "envs": envs * 2})));
     }
+    for (label, text) in crate::checks::c12::literal_texts().into_iter().chain(crate::checks::c12::unicode_span_texts().into_iter()) {
+        jobs.push(job("C12", "text", derive(seed, &label, 0), tier, json!({"label": label, "text": text, "envs": 2})));
+    }
     for (label, text) in crate::checks::c12::book_examples() {
         jobs.push(job("C12", "text", derive(seed, &label, 0), tier, json!({"label": label, "text": text, "envs": envs})));
     }
@@ -404,6 +407,7 @@ fn c19(seed: u64, tier: &str, thorough: bool) -> CheckPlan {
                 json!({"len": len, "max_points": if thorough { 400 } else { 60 }})));
         }
     }
+    jobs.push(job("C19", "coherence", seed, tier, json!({})));
     CheckPlan {
         property: "C19".into(),
         tier: tier.into(),
@@ -421,7 +425,7 @@ fn c19(seed: u64, tier: &str, thorough: bool) -> CheckPlan {
             "memory-safety of the unsafe merge/heap code on failure paths is observed through the accounting model (a lost or duplicated Rc changes the deallocation multiset) and crashes, not through a sanitizer".into(),
         ],
         opts: SupOpts::default(),
-        required_probes: vec!["reference_compared".into(), "comparator_error_value_midway".into(), "violation_inside_comparator".into(), "rerun_after_interrupted_sort_matches_reference".into()],
+        required_probes: vec!["reference_compared".into(), "comparator_error_value_midway".into(), "violation_inside_comparator".into(), "rerun_after_interrupted_sort_matches_reference".into(), "coherence_relations_checked".into()],
         exhaustive: false,
         extra: json!({}),
     }
